@@ -145,5 +145,5 @@ func callableCase(fn any, fi int, rec *cRec, args []any, tv int) (msg string) {
 func init() {
 	vrt.Register(&vrt.Scenario{Name: "F-callable", Props: []string{"C19"}, Quick: 0, Thorough: 0,
 		Desc: "Call(NewCallable(f), CallArgs(...), CallResults/CallResultsSlice(...)) for 14 signatures x every argument list of length <= arity+1 over 13 values (incl. untyped nil, typed nil pointer) x 13 result-target variants, against independently computed acceptability and a direct call",
-		Run: callableEnum, Check: callableCheck})
+		Run:  callableEnum, Check: callableCheck})
 }
